@@ -120,3 +120,22 @@ META["C10"] = dict(
     trusted_base=COMMON_TB,
     assumptions=["finite data; positive or zero weights"],
 )
+
+META["C16"] = dict(
+    level_text="Theorems (Lean): Linear.map sends Min to 0 and Max to 1, is affine and strictly monotone, unmap is its two-sided inverse for Min!=Max; with clamping map lies in [0,1] and is unchanged inside the domain; degenerate domains map to 1/2; NewLog accepts exactly the zero-free ranges with base>=2; the same laws for the Log scale stated over the reals in log|x|; QQ composition inverts. Correspondence: Map/Unmap/SetClamp/NewLog/QQ of the real code against the model (Linear exactly up to 8 eps; Log against interval enclosures of log/exp).",
+    level_note="Trusted: Lean kernel, harness sampling, MV.I enclosures for the Log scale. math.Log/Exp rounding is absorbed by tolerances proportional to 64 eps * sum|log| / |logMax-logMin|.",
+    technique="Lean 4 proofs of the scale laws + differential correspondence (interval enclosures for the Log scale)",
+    rule="sc <scale> map|unmap x, sc newlog a b base, sc <src> <dst> map|unmap x (QQ, all four pairings). Domains: integers, |Min|,|Max| log-uniform in [1e-12,1e12] with both signs, centre+-width, quarter-integers; both orders; degenerate 1/20; clamp on 1/3; x at Min, Max, midpoint, within 100 widths. non-trivial = every case (each exercises one law instance)",
+    exhaustive_part="",
+    trusted_base=COMMON_TB + ["MV.I interval enclosures (log, exp) for the Log scale"],
+    assumptions=["finite domains; Log domains exclude zero"],
+)
+META["C17"] = dict(
+    level_text="Theorems (Lean): for every non-increasing count function, every guess and every option set, FindLevel returns the least level in [MinLevel,MaxLevel] whose count is at most Max, and fails exactly when none exists; Linear tick counts are non-increasing in the level and equal the length of the tick list; ticks are ascending multiples of the level's spacing inside the slack-extended domain; majors are a subset of minors. Correspondence: FindLevel on exhaustive step-shaped count tables; Linear/Log Ticks, CountTicks, TicksAtLevel and Nice of the real code against the exact model (Log through interval enclosures), plus the property's clauses evaluated directly on the code's output (ascending, inside the domain, at most Max, majors in minors, count = len, count monotone, Nice never shrinks, idempotent and tick-aligned for Max>=3).",
+    level_note="Trusted: Lean kernel, harness sampling, MV.I enclosures for Log ticks. Near-tie policy: when perturbing the library's 1e-10 slack by +-1% changes the model's level or tick range the equality part is skipped (counted as amb); the output clauses are still checked. 'Inside the domain' and 'never shrinks' are read up to the library's own slack (2e-10 of the width).",
+    technique="Lean 4 proof of FindLevel for all monotone tickers + differential correspondence with near-tie policy",
+    rule="findlevel table lo Max MinLevel MaxLevel guess: all non-increasing tables of length<=4 (thorough 5) with values 0..5, two offsets, Max 0..5, 7 level ranges, 6 guesses (quick: 1/6 sample). lticks/lnice: widths 1e-9..1e9, |centre|/width up to 1e3, nice-valued bounds, bases {0,2,3,5,10,16}, Max 1..20 (also 0), level limits 1/4 of cases. gticks/gnice: positive and negative domains spanning up to 1e-100..1e100, bases {10,2,3,5,16}. non-trivial = non-degenerate domain with Max>=1",
+    exhaustive_part="FindLevel: all non-increasing count tables of length <=5 over 0..5 (thorough)",
+    trusted_base=COMMON_TB + ["MV.I interval enclosures (log) for Log ticks"],
+    assumptions=["finite domains; Log domains exclude zero; Base not 1 or negative"],
+)
